@@ -984,7 +984,7 @@ func convertRule(l *slog.Logger, p any, table string, i int) (rule, error) {
 
 	singleGroup := toString("group", m)
 
-	if rg, ok := m["groups"]; ok {
+	if rg, ok := m["groups"]; ok && rg != nil {
 		switch reflect.TypeOf(rg).Kind() {
 		case reflect.Slice:
 			v := reflect.ValueOf(rg)
